@@ -1,7 +1,7 @@
 """Worker for C12: executes one scripted history in THIS fresh process and prints a
 canonical digest of theory.thy.data.  Usage: c12_worker.py '<json history>'.
 History ops: ["import", module] | ["load", name, limit|null] | ["scratch", dir]
-| ["touch", name] | ["corrupt_once", name] | ["dump"]."""
+| ["touch", name] | ["append_item", name, item] | ["replace_item", name, item name, item] | ... (see main)."""
 import hashlib
 import json
 import os
@@ -27,6 +27,14 @@ def canon():
             out[key] = sorted((str(k), repr(v)) for k, v in val.items())
         else:
             out[key] = repr(val)
+    # what a user of the loaded theory observes: every theorem looked up by name (this goes through the lazily filled
+    # cache of schematic forms, which is itself left out above)
+    try:
+        names = sorted(thy.data.get('theorems', {}))
+        if len(names) <= 4000:
+            out['lookups'] = [(n, repr(theory.get_theorem(n))) for n in names]
+    except Exception as e:
+        out['lookups'] = 'exc:' + type(e).__name__
     blob = json.dumps(out, sort_keys=True)
     return hashlib.sha256(blob.encode()).hexdigest()[:16], {k: (len(v) if isinstance(v, list) else 1) for k, v in out.items()}
 
@@ -72,6 +80,17 @@ def main():
                 # 'older': the new content carries a modification time BEFORE the one the cache saw (a restored backup, cp -p, rsync -t)
                 os.utime(path, (st.st_atime, (old_mtime - 100) if older else (st.st_mtime + 10)))
                 res.append(['append_item', op[1], 'ok'])
+            elif op[0] == 'replace_item':
+                from logic import basic
+                path = basic.user_file(op[1])
+                with open(path, encoding='utf-8') as f:
+                    data = json.load(f)
+                data['content'] = [op[3] if it.get('name') == op[2] and it.get('ty') == op[3].get('ty') else it for it in data['content']]
+                with open(path, 'w', encoding='utf-8') as f:
+                    json.dump(data, f)
+                st = os.stat(path)
+                os.utime(path, (st.st_atime, st.st_mtime + 10))
+                res.append(['replace_item', op[1], 'ok'])
             elif op[0] == 'new_theory':
                 from logic import basic
                 path = basic.user_file(op[1])
